@@ -172,8 +172,15 @@ fn resources_of(e: &E) -> Vec<String> {
 }
 
 pub fn judge(tree: &E) -> Verdict {
-    if let Some(v) = text_path(tree) {
-        return v;
+    judge_with(tree, true)
+}
+
+/// `behaviour` off: the structural part only (for expressions with tens of thousands of resources)
+pub fn judge_with(tree: &E, behaviour: bool) -> Verdict {
+    if behaviour {
+        if let Some(v) = text_path(tree) {
+            return v;
+        }
     }
     let comp = match policy::compile_tree(tree, None, "/") {
         CompileOutcome::Ok(c) => c,
@@ -218,6 +225,9 @@ pub fn judge(tree: &E) -> Verdict {
                 return Verdict::Fail(format!("different requests {prev:?} and {q:?} share the identifier {r}"));
             }
         }
+    }
+    if !behaviour {
+        return Verdict::Pass { nt: true, class: "very large expression: structure only" };
     }
     // every generated binding is used or is infrastructure (port/mutex/frame); none is bound but unreferenced twice
     // behavioural sample: files that each match exactly one pattern
@@ -361,6 +371,7 @@ pub fn run(ctx: &Ctx) -> Report {
     // requests that a registry keyed by a concatenation of their parts would take for one
     let mut twins = crate::combo::concat_twin_trees();
     twins.extend(crate::combo::escape_twin_trees());
+    twins.extend(crate::combo::long_prefix_twin_trees());
     let tw = run_shards(16, |shard| {
         let mut st = Stats::new();
         for (i, t) in twins.iter().enumerate().filter(|(i, _)| i % 16 == shard) {
@@ -371,6 +382,29 @@ pub fn run(ctx: &Ctx) -> Report {
         st
     });
     total.merge(tw);
+    // 33 000 distinct matchers, then early and late ones again (an identifier stored in 16 bits, a
+    // registry that degrades with size), in plain and in framed mode
+    fn balanced(leaves: &[E]) -> E {
+        if leaves.len() == 1 {
+            return leaves[0].clone();
+        }
+        let (l, r) = leaves.split_at(leaves.len() / 2);
+        E::or(balanced(l), balanced(r))
+    }
+    let mut stb = Stats::new();
+    for (n, framed) in [(33_000usize, false), (33_000, true)] {
+        let mut names: Vec<E> = (0..n).map(|i| E::T(if i % 2 == 0 { Tst::Name(format!("p{i}")) } else { Tst::IName(format!("p{i}")) })).collect();
+        for again in [2usize, 40, 32_766, 32_768, 32_770, 32_999] {
+            names.push(E::T(if again % 2 == 0 { Tst::Name(format!("p{again}")) } else { Tst::IName(format!("p{again}")) }));
+        }
+        let mut t = balanced(&names);
+        t = E::and(t, E::A(if framed { Act::FPrint0("big.out".into()) } else { Act::Print }));
+        let t0 = std::time::Instant::now();
+        let v = judge_with(&t, false);
+        stb.notes.push(format!("structural judgement of {n} matchers took {:.1} s", t0.elapsed().as_secs_f64()));
+        stb.record(&v, stable_hash(&(n, framed, "big")), true, || json!({"kind": "many-matchers", "matchers": n, "framed": framed}));
+    }
+    total.merge(stb);
     crate::fuzzrun::replay_policy_trees(&mut total, judge);
     // interaction triples: three leaf kinds under every operator skeleton
     let tr = crate::combo::run_triples(ctx.seed, &crate::combo::supported_kinds(), ctx.tier.pick(48, 3), judge, case_json);
